@@ -31,7 +31,10 @@ def make(p):
         # with the split point; an extra column that the split direction ignores keeps the training rows pairwise distinct
         X = torch.cat([torch.randint(-3, 4, (n, d - 1), generator=g).float(), torch.arange(n).float()[:, None] * 0.001], dim=1)
         Xv = torch.cat([torch.randint(-3, 4, (nv, d - 1), generator=g).float(), -1.0 - torch.arange(nv).float()[:, None] * 0.001], dim=1)
-    if p['task'] == 'reg':
+    if p['task'] == 'relu':
+        # targets that are exactly constant (zero) on a half space: nodes inside it have no linear trend to split on
+        y, yv = torch.relu(X[:, :1]), torch.relu(Xv[:, :1])
+    elif p['task'] == 'reg':
         y = torch.sin(X[:, :1]) + 0.1 * torch.randn(n, p['outputs'], generator=g)
         yv = torch.sin(Xv[:, :1]) + 0.1 * torch.randn(nv, p['outputs'], generator=g)
     else:
